@@ -8,7 +8,7 @@ import re
 
 from ..runner import Spec, Stream
 
-FIELDS_MODEL = ("t", "oc", "c", "s", "n", "i", "b", "it")
+FIELDS_MODEL = ("t", "oc", "c", "s", "n", "i", "b", "it", "f", "cf")
 FIELDS_REF = ("t", "oc", "c", "s", "n", "i", "b", "it", "f", "cf")
 WS = b" \t\r\n"
 
@@ -158,7 +158,7 @@ class C14(Spec):
                         kind = "phantom-value"
                     elif st == "panic:path" and not (neg and all(not is_node_api(a) for a in names)):
                         kind = "crash"
-                    elif mrec is not None and not surr:
+                    elif mrec is not None:
                         # the error class is not part of the property: tie to the model only.  (Not checked
                         # where a listed finding changes the class: lone surrogate keys, duplicate keys of
                         # a loaded object.)
@@ -166,6 +166,8 @@ class C14(Spec):
                             want = []
                             if not is_node_api(a):
                                 want = [{"nf": "nf", "err:syntax": "err:syntax", "err:path": "panic:path"}.get(mrec["_"])]
+                            elif surr:
+                                want = []
                             elif a in ("NR", "NGI") and mnode is not None:
                                 want = [parse_rec(mnode)["_"]]
                             elif a in ("NL", "NI", "NRC") and mnode is not None:
@@ -206,6 +208,17 @@ class C14(Spec):
                 return True
             mrec = parse_rec(m["model"])
             srec = parse_rec(m.get("spec"))
+            if m.get("kwf") == "0":
+                # a key literal `unescape` cannot decode (lone surrogate): the searcher model is faithful to
+                # match_key and may report a syntax error where the specification finds the value
+                # (theorem search_lone_surrogate_witness); only the specification is held against the reference
+                if (srec["_"] == "ok") != (exp["_"] == "ok"):
+                    return True
+                if exp["_"] == "ok" and any(srec.get(f) != exp.get(f) for f in FIELDS_MODEL):
+                    return True
+                if mrec["_"] == "ok" and (exp["_"] != "ok" or any(mrec.get(f) != exp.get(f) for f in FIELDS_MODEL)):
+                    return True
+                continue
             if (mrec["_"] == "ok") != (exp["_"] == "ok") or (srec["_"] == "ok") != (exp["_"] == "ok"):
                 return True
             if mrec["_"] != srec["_"]:
@@ -317,6 +330,10 @@ class C14(Spec):
                             idxobj.append("step %d %s: %s" % (i, steps[i][:60], g[:80]))
                         elif self._seq_ok(w) != self._seq_ok(g) or (self._seq_ok(w) and g != w):
                             bad.append("step %d %s: got %s want %s" % (i, steps[i][:60], g[:80], w[:80]))
+                if not bad and root == "NR" and (model.get(env) or {}).get("lnode"):
+                    ln = (model.get(env) or {})["lnode"].split("|")
+                    if len(ln) == len(got) and any(self._seq_ok(a) != self._seq_ok(b) or (self._seq_ok(a) and a != b) for a, b in zip(got, ln)):
+                        out.append(("tie:lazy-loader", "%s: sonic=%s model=%s" % (env, (ans or "")[:200], "|".join(ln)[:200])))
                 if bad:
                     out.append(("lookup-depends-on-history", "%s root=%s: %s | steps=%s" % (env, root, "; ".join(bad)[:600], case[2][:400])))
                 elif idxobj:
@@ -329,6 +346,8 @@ class C14(Spec):
             ref = s.get("ref")
             if "model" not in m or ref is None or s.get("u8") != "1":
                 continue
+            if m["model"] != "invalid" and m.get("lnode") != m.get("node"):
+                return True     # lazy-loader model vs the Node API specification (theorem node_getbypath_eq_locate)
             if (m["model"] == "invalid") != (ref == "invalid"):
                 return True
             if ref != "invalid" and (m["model"] != ref or m.get("spec") != ref):
@@ -447,7 +466,18 @@ class C14(Spec):
             if not lone_surrogate_in_key(bytes.fromhex(d["case"][2])):
                 return False
             bad = recs_of_kind(d)
-            return bool(bad) and all(r["_"] == "err:syntax" and all(not is_node_api(a) or re.fullmatch(r"W\dN\d+", a) for a in names) for _, names, r in bad)
+            if not bad:
+                return False
+            for env, names, r in bad:
+                m = d["model"].get(env) or {}
+                if m.get("kwf") != "0" or r["_"] != "err:syntax":
+                    return False
+                if not all(not is_node_api(a) or re.fullmatch(r"W\dN\d+", a) for a in names):
+                    return False
+                # the searcher model (native match_key loop) predicts the error for the pure searcher entry points
+                if any(not is_node_api(a) for a in names) and m.get("model") != "err:syntax":
+                    return False
+            return True
 
         return {"node_index_on_object": node_index_on_object,
                 "dup_key_last_after_load": dup_key_last_after_load,
